@@ -531,12 +531,25 @@ def fam_matrix(rng, idx):
     """C02: configuration number idx of the full option matrix, on a generated probe"""
     # a stride co-prime with the matrix size visits the configurations in a well-mixed order
     t, bits, inter, arr, be, tab = MATRIX[(idx * 251) % len(MATRIX)]
-    rs = rules.gen_ruleset(rng, p_trail=0.0, csize=128 if bits == 7 else 256, p_bol=0.3)
+    # trailing context (fixed and variable) in a third of the probes; variable trailing context needs compressed tables
+    full = any('f' in o or 'F' in o for o in MATRIX_TOPTS[t])
+    rs = rules.gen_ruleset(rng, p_trail=rng.choice([0.0, 0.0, 0.35]), allow_var_trail=not full,
+                           csize=128 if bits == 7 else 256, p_bol=0.3)
     cfg = rt.Config(backend=be, topt=MATRIX_TOPTS[t], interactive=inter, array=arr, tables=tab,
                     yymore=rng.random() < 0.5, stack=rng.random() < 0.5, ledger=rng.random() < 0.5,
                     lineno=rng.random() < 0.3)
     return rs, cfg, _ops_case()
 
 
-FAMILIES = {'buffers': fam_buffers, 'include': fam_include, 'plain': fam_plain, 'ops': fam_ops, 'unput': fam_unput, 'reject': fam_reject,
+def fam_sertrail(rng):
+    """serialized tables (loaded at run time, or verified against the in-code ones) for rule sets with fixed and
+    variable trailing context and REJECT: the flag bits of yy_acclist travel through the file too"""
+    rs = rules.gen_ruleset(rng, p_trail=0.6, p_bol=0.2, p_chain=rng.choice([0.0, 0.2]))
+    rej = rng.random() < 0.3
+    cfg = rt.Config(backend=rng.choice(['nr', 'r']), topt=_compressed(rng), interactive=rng.choice([None, False]),
+                    tables=rng.choice(['file', 'file', 'verify']), reject=rej, ledger=rng.random() < 0.5)
+    return rs, cfg, _ops_case(kinds=['less', 'return'] + (['reject'] if rej else []), small=not rej)
+
+
+FAMILIES = {'sertrail': fam_sertrail, 'buffers': fam_buffers, 'include': fam_include, 'plain': fam_plain, 'ops': fam_ops, 'unput': fam_unput, 'reject': fam_reject,
             'lineno': fam_lineno, 'trail': fam_trail, 'eof': fam_eof, 'deepstack': fam_deepstack, 'reads': fam_reads, 'bufreq': fam_bufreq, 'arraymore': fam_arraymore, 'wrapbol': fam_wrapbol}
